@@ -58,8 +58,8 @@ const c19Root = "/verif/.work/C19/client"
 type c19Pkg struct{ id, dir, name, path string }
 
 var c19Pkgs = []*c19Pkg{
-	{"safehtml", "/repo", "safehtml", "github.com/google/safehtml"},
-	{"template", "/repo/template", "template", "github.com/google/safehtml/template"},
+	{"safehtml", repoRoot(), "safehtml", "github.com/google/safehtml"},
+	{"template", repoRoot() + "/template", "template", "github.com/google/safehtml/template"},
 }
 
 type c19File struct {
@@ -926,11 +926,11 @@ func c19ErrClass(msg string) string {
 
 func c19WriteModule(dir, lang string) {
 	os.MkdirAll(dir, 0o755)
-	gomod := fmt.Sprintf("module c19client\n\ngo %s\n\nrequire github.com/google/safehtml v0.0.0\n\nreplace github.com/google/safehtml => /repo\n", strings.TrimPrefix(lang, "go"))
+	gomod := fmt.Sprintf("module c19client\n\ngo %s\n\nrequire github.com/google/safehtml v0.0.0\n\nreplace github.com/google/safehtml => %s\n", strings.TrimPrefix(lang, "go"), repoRoot())
 	if err := ioutil.WriteFile(filepath.Join(dir, "go.mod"), []byte(gomod), 0o644); err != nil {
 		panic(err)
 	}
-	sum, err := ioutil.ReadFile("/repo/go.sum")
+	sum, err := ioutil.ReadFile(repoRoot() + "/go.sum")
 	if err != nil {
 		panic(err)
 	}
